@@ -394,8 +394,9 @@ def r6_bit_helpers_fresh(ck, cx, rule='R6'):
                     hit = '%s.%s()' % (par, x.func.attr)
                 if hit:
                     # a rebinding of the parameter to a fresh object earlier in the function makes the name the helper's own
+                    # (on every path: an assignment under a condition leaves the caller's object in the name on the other branch)
                     rebound = any(isinstance(y, ast.Assign) and any(isinstance(t, ast.Name) and t.id == par for t in y.targets) and y.lineno < x.lineno
-                                  for y in ast.walk(fn.node))
+                                  and y in fn.node.body for y in ast.walk(fn.node))
                     n += 1
                     ck.ob(rule, fn.qn, 'the helper does not modify its argument in place', rebound, detail='helper-mutates-argument %s' % hit.split()[0].split('[')[0].split('.')[0],
                           loc=cx.floc(fn, x), message='%s changes its argument in place (%s): the list belongs to the message that is being encoded, so the '
